@@ -9,7 +9,11 @@ from .common import run_control, generic_rules
 
 def analyse(ctx: CheckContext, p: Program):
     r = Resolver(p)
-    generic_rules(ctx, p, r, "C16")
+    ctx.guard(generic_rules, ctx, p, r, "C16")
+    ctx.guard(_specific, ctx, p, r)
+
+
+def _specific(ctx: CheckContext, p: Program, r: Resolver):
     pp = p.find_class("PinchProblem")
     if pp is None:
         raise AnalysisError("PinchProblem not found")
@@ -31,13 +35,13 @@ def analyse(ctx: CheckContext, p: Program):
     ctx.rule("MEMO", "None-guarded memo: at every normal exit of a method reachable after a write to a field the cached result is computed from, "
                      "the cache has been reset to None (before or after the write, with no recomputation in between)")
     ctx.info["result_cache"] = {"method": pat.method.qualname, "guard": pat.flag, "caches": pat.caches, "sources": sorted(pat.sources)}
-    classflow.check_memo(ctx, r, pat, "MEMO")
-    readers.check_foreign_field_writes(ctx, p, r, pp, set(pat.sources), "MEMO-EXT")
-    api.check_dataframe_api(ctx, p, r, ["OpenPinch.utils.csv_to_json", "OpenPinch.utils.wkbook_to_json"])
+    ctx.guard(classflow.check_memo, ctx, r, pat, "MEMO")
+    ctx.guard(readers.check_foreign_field_writes, ctx, p, r, pp, set(pat.sources), "MEMO-EXT")
+    ctx.guard(api.check_dataframe_api, ctx, p, r, ["OpenPinch.utils.csv_to_json", "OpenPinch.utils.wkbook_to_json"])
     fs = [f for f in p.all_funcs if f.module.name in ("OpenPinch.utils.csv_to_json", "OpenPinch.utils.wkbook_to_json", "OpenPinch.utils.export")]
-    api.check_module_attrs(ctx, p, r, fs)
-    sheetnames.check_sheet_names(ctx, p, r)
-    readers.check_reader_tables(ctx, p, r)
+    ctx.guard(api.check_module_attrs, ctx, p, r, fs)
+    ctx.guard(sheetnames.check_sheet_names, ctx, p, r)
+    ctx.guard(readers.check_reader_tables, ctx, p, r)
 
 
 def run(ctx: CheckContext):
